@@ -75,8 +75,17 @@ pub async fn declare_handles(
 /// ```text
 /// 0  CREATE CONCEPT       stages typed Concepts other clauses validate against
 /// 1  UPSERT / ENSURE      resolve existing identity, binding their handles late
-/// 2  everything else      sees a complete handle map and every staged type
+/// 2  CREATE EVIDENCE / ASSERTION / ACTIVITY
+///                         stages the records other clauses edit
+/// 3  everything else      sees a complete handle map and every staged row
 /// ```
+///
+/// Record-creating clauses get a pass of their own for the same reason
+/// `CREATE CONCEPT` does: a clause that edits a record this plan creates
+/// (`CORRECT EVIDENCE :old BY ?new`, `SUPERSEDE`, `UPDATE ?a`, ...) loads the
+/// handle's row, and when it ran before the creating clause it edited the
+/// still-empty shell and the creation then overwrote the edit — half of the
+/// clause committed.
 ///
 /// `ENSURE` is in pass 1 rather than pass 0 because checking a predicate's
 /// declared subject type means knowing what type the subject *is* — including
@@ -87,12 +96,15 @@ pub fn plan_pass(clause: &MutationClause) -> u8 {
     match clause {
         MutationClause::CreateConcept(_) => 0,
         MutationClause::UpsertConcept(_) | MutationClause::EnsureProposition(_) => 1,
-        _ => 2,
+        MutationClause::CreateEvidence(_)
+        | MutationClause::CreateAssertion(_)
+        | MutationClause::CreateActivity(_) => 2,
+        _ => 3,
     }
 }
 
 /// How many planning passes [`plan_pass`] distributes clauses over.
-pub const PLAN_PASSES: u8 = 3;
+pub const PLAN_PASSES: u8 = 4;
 
 /// Interprets one clause against a plan with every handle already bound.
 pub async fn apply(
